@@ -346,3 +346,8 @@ package phttp
 //@ props C09
 //@ modifies nothing
 //@ ensures result != nil
+
+// (NewRedirectingClient builds the client over the *http.Transport it is given)
+//@ func (c redirectClient) CloseIdleConnections
+//@ props C09
+//@ env [a-redirecting-client-is-built-over-an-http-transport] c.Client != nil && typeis(c.Transport, *http.Transport)
